@@ -215,7 +215,7 @@ def node_impl(n):
     return out
 
 
-def node_coq(n, probe_pub="probe_sweep_publishes"):
+def node_coq(n, probe_pub="probe_sweep_publishes", two_flag=None):
     k = n["k"]
     cfg = cq_list([cq_pair(cq_str(a), v_coq(b)) for a, b in n.get("cfg", {}).items()])
     ck = cq_opt(n.get("ckey"), cq_str)
@@ -236,7 +236,9 @@ def node_coq(n, probe_pub="probe_sweep_publishes"):
     elif k == "sweep":
         vs = []
         for name, spec in n["vars"]:
-            if spec[0] in ("seq", "rawlist"):
+            if spec[0] == "rawlist" and two_flag is not None:
+                s = "(convert_var %s (RawList %s))" % (two_flag, cq_list([v_coq(x) for x in spec[1]]))
+            elif spec[0] in ("seq", "rawlist"):
                 s = "(VSeq %s)" % cq_list([v_coq(x) for x in spec[1]])
             elif spec[0] == "range":
                 s = "(VRange %s %s %s %s)" % (cq_Z(spec[1]), cq_Z(spec[2]), cq_nat(spec[3]), cq_bool(spec[4]))
